@@ -3,6 +3,7 @@ package checks
 import (
 	"bytes"
 	"fmt"
+	"math/big"
 	"math/rand"
 	"strings"
 
@@ -114,9 +115,15 @@ func init() {
 				}
 			}
 		},
-		Cases: func(c *mon.Ctx) int { return nSeeds + c.Pick(30000, 600000) },
+		Cases: func(c *mon.Ctx) int { return nSeeds + c.Pick(30000, 600000) + c09OwnKeyCases },
 		RunCase: func(c *mon.Ctx, i int) {
-			o, desc, _ := unionCase(c, i, &c09Mut)
+			var o *mon.Obj
+			var desc string
+			if base := nSeeds + c.Pick(30000, 600000); i >= base {
+				o, desc = c09OwnKey(i - base)
+			} else {
+				o, desc, _ = unionCase(c, i, &c09Mut)
+			}
 			if o == nil || o.Kind != corpus.Cert {
 				return
 			}
@@ -201,4 +208,51 @@ func init() {
 			return gates
 		},
 	})
+}
+
+// ---- certificates whose signature really verifies under their OWN key although they are not self-issued ----
+//
+// (cross-signed / re-keyed CA shapes). Any logic that looks at the signature value - e.g. "is this really
+// self-signed?" - gives a different answer for these than for the same TBS with other signature bits, so they
+// are the bases on which signature dependence can show at all. Templates x {AKI == SKI, AKI != SKI, no AKI,
+// neither} x signature algorithm field.
+
+const c09OwnKeyCases = 5 * 4 * 2
+
+func c09OwnKey(k int) (*mon.Obj, string) {
+	key := gen.DefaultKey()
+	tmpl, akiMode, alt := k%5, (k/5)%4, k/20
+	nb := gen.D(2024, 3, 1)
+	var s *gen.Spec
+	switch tmpl {
+	case 0:
+		s = gen.SubCA(nb)
+	case 1:
+		s = gen.TLSLeaf(nb, "www.example.com")
+	case 2:
+		s = gen.SMIMELeaf(nb, "alice@example.com")
+	case 3:
+		s = gen.CSLeaf(nb)
+	default:
+		s = gen.SubCA(gen.D(2010, 3, 1))
+	}
+	if alt == 1 { // issuer and subject share every attribute but one
+		s.Issuer = s.Subject.Clone()
+		s.Issuer.Children = append(s.Issuer.Children, gen.Name(gen.A(gen.OIDOU, "cross-signed")).Children...)
+	}
+	ski := []byte{1, 2, 3, 4, 5, 6, 7, 8, 9, 10, 11, 12, 13, 14, 15, 16, 17, 18, 19, 20}
+	s.RemoveExt(gen.OIDExtSKI)
+	s.RemoveExt(gen.OIDExtAKI)
+	switch akiMode {
+	case 0:
+		s.Exts = append(s.Exts, gen.ExtSKI(ski), gen.ExtAKI(ski))
+	case 1:
+		s.Exts = append(s.Exts, gen.ExtSKI(ski), gen.ExtAKI([]byte{9, 9, 9, 9, 9, 9, 9, 9, 9, 9, 9, 9, 9, 9, 9, 9, 9, 9, 9, 9}))
+	case 2:
+		s.Exts = append(s.Exts, gen.ExtSKI(ski))
+	}
+	s.SPKI = gen.RSASPKI(key.N, big.NewInt(65537))
+	s.SelfSign = key // really signed with the key it carries
+	o, _ := mon.ParseObj(corpus.Cert, fmt.Sprintf("gen/ownkey/t%d-aki%d-alt%d", tmpl, akiMode, alt), s.DER())
+	return o, "signed by its own key, not self-issued"
 }
